@@ -4,5 +4,9 @@ set -e
 cd "$(dirname "$0")/harness"
 export CARGO_NET_OFFLINE=true
 cargo build --bin nv 2>&1 | tail -3
+# the real nun-db binary (guard off) for the C16 start-up cross-check; ./check C16 rebuilds it as well
+REPO_DIR=$(sed -n 's/^nundb = .*path = "\([^"]*\)".*/\1/p' Cargo.toml)
+HERE=$(pwd)
+(cd "$REPO_DIR" && cargo build --offline --bin nun-db --target-dir "$HERE/target/real" 2>&1 | tail -1)
 ./target/debug/nv selftest
 echo "setup ok"
